@@ -3,6 +3,7 @@
 use serde_json::{Value, json};
 use std::io::{BufRead, Write};
 
+mod ops_env;
 mod ops_graph;
 mod ops_layer;
 mod ops_parse;
@@ -34,6 +35,7 @@ fn dispatch(op: &str, req: &Value) -> Value {
         "version" | "api" | "newtype" => ops_parse::run(op, req),
         "layer-struct" => ops_layer::layer_struct(req),
         "writer" => ops_writer::run(req),
+        "env-apply" => ops_env::apply(req),
         "dep-graph" => ops_graph::run(req),
         _ => json!({"error": format!("unknown op {op}")}),
     }
